@@ -1568,7 +1568,7 @@ theorem canChangeType_setNodeMarkup_applies (S : Schema) (doc : Node) (pos : Nat
     rw [← hpos] at hsl hap
     have hnat : (Node.elem ty0 a0 m0 K).nodeAt pos = .ok (some (.elem tyN aN mN kidsN)) := by
       rw [hpos]
-      exact nodeAtKids_lvl hl' _ _ _ rfl hnL.1
+      exact nodeAtKids_lvlR hl' _ _ _ rfl hnL.1
     refine ⟨hnat, _, by simpa [Node.size_elem] using hap, ?_⟩
     have hckN : S.checkKids kidsN = true := by
       have hpv := path_valid S R hv r.depth (Nat.le_refl _)
@@ -1770,7 +1770,7 @@ theorem canChangeType_setNodeMarkup_leaf_applies (S : Schema) (doc : Node) (pos 
     rw [← hpos] at hft hap
     have hnat : (Node.elem ty0 a0 m0 K).nodeAt pos = .ok (some c) := by
       rw [hpos]
-      exact nodeAtKids_lvl hl' _ _ _ rfl hnL.1
+      exact nodeAtKids_lvlR hl' _ _ _ rfl hnL.1
     refine ⟨hnat, replaceStep_trivial S _ _ _ _ (by simp [Slice.size]) hft, _, hap, ?_⟩
     refine C01.apply_valid S _ _ _ hv ?_ hap
     simp [C01.PayloadValid, openValid, rightOpenValid, Schema.checkNode, hcan, hg.1]
